@@ -198,10 +198,37 @@ pub fn meta_scenario(rng: &mut Rng) -> String {
     s
 }
 
+/// cookware (and unit-less ingredients) with text, number, range and fraction amounts in every order, repeated through
+/// references, so that the grouping of amounts meets text-before-number, number-before-text and mixed sequences
+pub fn amount_scenario(rng: &mut Rng) -> String {
+    const POOL: &[&str] = &["pan", "pot", "Pan", "big bowl"];
+    const AMTS: &[&str] = &["", "big", "2", "3", "1-2", "1/2", "a few", "0", "large", "1.5", "2-4", "=2"];
+    let mut s = String::new();
+    let k = 1 + rng.below(2);
+    let names: Vec<&str> = (0..k).map(|_| rng.pick_str(POOL)).collect();
+    let marker = if rng.chance(3, 4) { "#" } else { "@" };
+    let n = 2 + rng.below(5);
+    let mut seen: Vec<&str> = Vec::new();
+    for i in 0..n {
+        if i > 0 { s.push_str(rng.pick_str(&[" ", " and ", ".\n\n", "\n"])); }
+        let name = names[rng.below(names.len())];
+        s.push_str(marker);
+        if seen.contains(&name) && rng.chance(5, 6) { s.push('&'); }
+        seen.push(name);
+        s.push_str(name);
+        s.push('{');
+        s.push_str(rng.pick_str(AMTS));
+        s.push('}');
+    }
+    s.push('\n');
+    s
+}
+
 pub fn recipe(rng: &mut Rng) -> String {
-    match rng.below(10) {
+    match rng.below(11) {
         0 | 1 => return ref_scenario(rng),
         2 => return meta_scenario(rng),
+        10 => return amount_scenario(rng),
         _ => {}
     }
     let mut s = String::new();
